@@ -66,9 +66,16 @@ func (m *Machine) paramsMsg(a *Action, authority string) (sdk.Msg, error) {
 		msg = &oracletypes.MsgUpdateParams{Authority: authority, Params: oracletypes.Params{MaxSizePrices: p.MaxSizePrices + 1}}
 	case "dogfood":
 		p := c.App.StakingKeeper.GetDogfoodParams(ctx)
-		if a.N > 0 {
+		switch {
+		case a.N > 0:
 			p.EpochsUntilUnbonded = uint32(a.N) // the unbonding period itself
-		} else {
+		case a.N == -1 && p.MaxValidators > 1:
+			p.MaxValidators-- // the size of the validator set
+		case a.N == -3:
+			p.MinSelfDelegation = p.MinSelfDelegation.MulRaw(2).AddRaw(1) // the eligibility threshold
+		case a.N == -4:
+			p.MinSelfDelegation = p.MinSelfDelegation.QuoRaw(2)
+		default:
 			p.MaxValidators++
 		}
 		msg = &dogfoodtypes.MsgUpdateParams{Authority: authority, Params: p}
